@@ -631,7 +631,8 @@ def run(c, prog):
     rule_twopass(c, prog)
     rule_name(c, prog)
     _C15.rule_one(core.Alias(c, "C02"), prog, _dbm.Database())     # two elements for one property: the value under the canonical key is replaced by the alias's
-    from . import C06 as _C06
+    from . import C06 as _C06, C17_domain as _C17d
+    _C17d.run(core.Alias(c, "C02"), prog, which=("tags", "matcolors"))     # rbx_xml stores both through their blobs
     _C06.rule_name(core.Alias(c, "C02"), prog)     # names read back: not when the element is dropped as an unknown property
     from . import C02_type
     C02_type.run(c, prog)
